@@ -47,6 +47,14 @@ def show(v):
     if isinstance(v, KObj): return "obj:" + v.tag
     return str(v)
 
+KSH = ["ksh = |v|", "  t = try", "    map.get v, 'tag'", "  catch _", "    null", "  if t != null then 'obj:{t}' else koto.type v"]
+
+def ksh(v):
+    """What the Koto-side overloads log about self and their operand (no parentheses: those mark host log lines)."""
+    if isinstance(v, P): return "Probe"
+    if isinstance(v, KObj): return "obj:" + v.tag
+    return {int: "Number", str: "String"}.get(type(v), "Null")
+
 class KObj:
     """A Koto object with optional @op / @rop returning, unimplemented or throwing (defined in the script)."""
     def __init__(self, tag, op=None, key=None, mode=None):
@@ -55,7 +63,7 @@ class KObj:
         lines = ["%s =" % name, "  tag: '%s'" % self.tag, "  @type: 'K'"]
         if self.key:
             body = {"ret": "'%s%s'" % (self.tag, self.key), "unimpl": "throw koto.unimplemented", "throws": "throw 'boom'"}[self.mode]
-            lines += ["  %s: |o|" % self.key, "    hlog.push '%s.%s'" % (self.tag, self.key), "    " + body]
+            lines += ["  %s: |o|" % self.key, "    hlog.push '%s.%s[self={ksh self} o={ksh o}]'" % (self.tag, self.key), "    " + body]
         return lines
 
 def arith(log, L, R, i):
@@ -71,12 +79,12 @@ def arith(log, L, R, i):
             except Unimpl:
                 raise HErr()
         if isinstance(R, KObj) and R.key == "@r" + sym:
-            log.append("%s.%s" % (R.tag, R.key))
+            log.append("%s.%s[self=obj:%s o=%s]" % (R.tag, R.key, R.tag, ksh(L)))
             if R.mode == "ret": return R.tag + R.key
             raise HErr()
         raise HErr()
     if isinstance(L, KObj) and L.key == "@" + sym:
-        log.append("%s.%s" % (L.tag, L.key))
+        log.append("%s.%s[self=obj:%s o=%s]" % (L.tag, L.key, L.tag, ksh(R)))
         if L.mode == "ret": return L.tag + L.key
         if L.mode == "throws": raise HErr()
         # unimplemented: the probe on the right is asked
@@ -114,7 +122,7 @@ def log_text(log):
 
 def case(setup, stmts, fn):
     """stmts: statements; the last value is in r. Returns (lines, expected)."""
-    lines = ["hlog = []"] + setup + ["try"] + ["  " + s for s in stmts] + ["  print plog(), hlog", "  print '= {r}'", "catch _", "  print plog(), hlog", "  print 'E'"]
+    lines = ["hlog = []"] + KSH + setup + ["try"] + ["  " + s for s in stmts] + ["  print plog(), hlog", "  print '= {r}'", "catch _", "  print plog(), hlog", "  print 'E'"]
     log = []
     try:
         r = fn(log)
